@@ -131,7 +131,7 @@ def gen_case(rng, params, index):
             files["proj/" + source] = body
             no_dyn = rng.chance(0.5)
         else:
-            kind = rng.weighted([(5, "wide"), (3, "multi-error"), (1, "small"), (4, "qt-general"), (2, "qt-everything"), (1, "qt-observers"), (1, "qt-names"), (4, "project")])
+            kind = rng.weighted([(5, "wide"), (3, "multi-error"), (1, "small"), (4, "qt-general"), (2, "qt-everything"), (1, "qt-observers"), (1, "qt-names"), (4, "project"), (4, "mainwindow"), (1, "mainwindow-errors")])
             extra_types = []
             project = None
             if kind == "project":
@@ -145,6 +145,10 @@ def gen_case(rng, params, index):
                     kind = "wide"
             if project:
                 pass
+            elif kind == "mainwindow":
+                text = widegen.gen_mainwindow(rng)
+            elif kind == "mainwindow-errors":
+                text = widegen.gen_mainwindow(rng, n_errors=rng.randint(2, 6))
             elif kind == "wide":
                 text = widegen.gen_wide(rng)
             elif kind == "multi-error":
